@@ -322,4 +322,221 @@ mut("summary: EHQ.ceil made in place", ["R-SUMMARY"],
         return self''')],
     ["ExplainableHourlyQuantities.ceil"])
 
+# ------------------------------------------------------------------------------------------------ transactions
+TXN_FIXED = '''        self.recomputed_values = []
+        try:
+            if self.simulation_date is not None:
+                self.make_simulation_specific_operations()
+
+            self.apply_changes()
+            for new_sourcevalue in self.new_sourcevalues:
+                mod_obj_container = new_sourcevalue.modeling_obj_container
+                mod_obj_container.check_belonging_to_authorized_values(
+                    new_sourcevalue.attr_name_in_mod_obj_container, new_sourcevalue, mod_obj_container.list_values(),
+                    mod_obj_container.conditional_list_values(), mod_obj_container.attributes_with_depending_values())
+            self.recompute_attributes()
+        except Exception:
+            self.rollback()
+            raise
+'''
+TXN_UNFIXED = '''        self.recomputed_values = []
+        if self.simulation_date is not None:
+            self.make_simulation_specific_operations()
+
+        self.apply_changes()
+        for new_sourcevalue in self.new_sourcevalues:
+            mod_obj_container = new_sourcevalue.modeling_obj_container
+            mod_obj_container.check_belonging_to_authorized_values(
+                new_sourcevalue.attr_name_in_mod_obj_container, new_sourcevalue, mod_obj_container.list_values(),
+                mod_obj_container.conditional_list_values(), mod_obj_container.attributes_with_depending_values())
+        self.recompute_attributes()
+'''
+mut("txn: no rollback on failure (revert of fix F3-F5): allowed-values check", ["R-TXN"], [(MU, TXN_FIXED, TXN_UNFIXED)],
+    ["check_belonging_to_authorized_values"])
+mut("txn: no rollback on failure (revert of fix F3-F5): recomputation", ["R-TXN"], [(MU, TXN_FIXED, TXN_UNFIXED)],
+    ["update_function"])
+mut("txn: handler swallows the restore", ["R-TXN"],
+    [(MU, "        except Exception:\n            self.rollback()\n            raise\n",
+      "        except Exception:\n            raise\n")], ["unprotected"])
+mut("txn: recompute_attributes only publishes its list at the end", ["R-TXN"],
+    [(MU, "        self.recomputed_values = recomputed_values = []", "        recomputed_values = []")],
+    ["partial progress"])
+mut("txn: rollback forgets the filtered hourly quantities", ["R-TXN"],
+    [(MU, "            + list(zip(self.hourly_quantities_to_filter, self.filtered_hourly_quantities))\n", "")],
+    ["filtered_hourly_quantities"])
+mut("txn: allowed-values check moved after the try block", ["R-TXN"],
+    [(MU, '''            self.recompute_attributes()
+        except Exception:
+            self.rollback()
+            raise
+''', '''            self.recompute_attributes()
+        except Exception:
+            self.rollback()
+            raise
+        for new_sourcevalue in self.new_sourcevalues:
+            new_sourcevalue.modeling_obj_container.check_belonging_to_authorized_values(
+                new_sourcevalue.attr_name_in_mod_obj_container, new_sourcevalue,
+                new_sourcevalue.modeling_obj_container.list_values(),
+                new_sourcevalue.modeling_obj_container.conditional_list_values(),
+                new_sourcevalue.modeling_obj_container.attributes_with_depending_values())
+''')], ["check_belonging_to_authorized_values"])
+mut("txn: simulation no longer resets at the end", ["R-TXN"],
+    [(MU, "        if simulation_date is not None:\n            self.reset_values()\n", "")], ["reset_values"])
+twin("txn: allowed-values check hoisted before apply_changes inside the try", ["R-TXN"],
+     [(MU, '''            self.apply_changes()
+            for new_sourcevalue in self.new_sourcevalues:''', '''            self.apply_changes()
+            logger.debug("changes applied")
+            for new_sourcevalue in self.new_sourcevalues:''')])
+mut("mirror: reset_values puts the new values back", ["R-MIRROR"],
+    [(MU, '''                new_value.replace_in_mod_obj_container_without_recomputation(previous_value)
+            self.updated_values_set = False''', '''                previous_value.replace_in_mod_obj_container_without_recomputation(new_value)
+            self.updated_values_set = False''')], ["reset"])
+mut("mirror: set_updated_values loses its guard polarity", ["R-MIRROR"],
+    [(MU, "        if not self.updated_values_set:", "        if self.updated_values_set:")], ["guard"])
+mut("zip: empty results skipped by recompute_attributes", ["R-ZIP"],
+    [(MU, '''            recomputed_value = getattr(modeling_obj_container, attr_name_in_mod_obj_container)
+            recomputed_values.append(recomputed_value)''', '''            recomputed_value = getattr(modeling_obj_container, attr_name_in_mod_obj_container)
+            if isinstance(recomputed_value, EmptyExplainableObject):
+                continue
+            recomputed_values.append(recomputed_value)''')], ["recomputed_values"])
+mut("zip: segments concatenated in different orders", ["R-ZIP"],
+    [(MU, "                + self.replaced_ancestors_copies + self.recomputed_values)",
+      "                + self.recomputed_values + self.replaced_ancestors_copies)")], ["segment"])
+mut("zip: filtered quantities only appended when non-empty", ["R-ZIP"],
+    [(MU, "            self.filtered_hourly_quantities.append(new_value)",
+      "            if len(new_value) > 0:\n                self.filtered_hourly_quantities.append(new_value)")],
+    ["filtered_hourly_quantities"], undecided_ok=True)
+mut("snap: before-edit totals taken after the changes were applied", ["R-SNAP"],
+    [(MU, '''        if self.changes_list and self.system:
+            self.system.previous_total_energy_footprints_sum_over_period = (
+                self.system.total_energy_footprint_sum_over_period)
+            self.system.previous_total_fabrication_footprints_sum_over_period = \\
+                self.system.total_fabrication_footprint_sum_over_period
+            self.system.previous_change = changes_list
+            self.system.all_changes += changes_list
+''', ""),
+     (MU, '''        self.updated_values_set = True
+
+        if self.simulation_date is not None:
+            self.link_simulated_and_baseline_twins()''', '''        self.updated_values_set = True
+        if self.changes_list and self.system:
+            self.system.previous_total_energy_footprints_sum_over_period = (
+                self.system.total_energy_footprint_sum_over_period)
+            self.system.previous_total_fabrication_footprints_sum_over_period = \\
+                self.system.total_fabrication_footprint_sum_over_period
+            self.system.previous_change = changes_list
+            self.system.all_changes += changes_list
+
+        if self.simulation_date is not None:
+            self.link_simulated_and_baseline_twins()''')], ["after mutation"])
+mut("snap: creation totals taken before the first computation", ["R-SNAP"],
+    [(SYS, '''        mod_obj_computation_chain_excluding_self = self.mod_objs_computation_chain[1:]''',
+      '''        self.initial_total_energy_footprints_sum_over_period = self.total_energy_footprint_sum_over_period
+        mod_obj_computation_chain_excluding_self = self.mod_objs_computation_chain[1:]'''),
+     (SYS, '''        self.initial_total_energy_footprints_sum_over_period = self.total_energy_footprint_sum_over_period
+        self.initial_total_fabrication''', '''        self.initial_total_fabrication''')], ["before computation"])
+
+# ------------------------------------------------------------------------------------------------ entry / bookkeeping
+mut("entry: GenAIModel.__setattr__ handles model_name itself", ["R-ENTRY"],
+    [(GA, '''        super().__setattr__(name, input_value, check_input_validity=check_input_validity)
+
+    def __init__(self, name: str, provider: ExplainableObject, model_name''',
+      '''        if name == "model_name" and self.trigger_modeling_updates:
+            self.__dict__[name] = input_value
+            return
+        super().__setattr__(name, input_value, check_input_validity=check_input_validity)
+
+    def __init__(self, name: str, provider: ExplainableObject, model_name''')], ["GenAIModel.__setattr__"])
+mut("entry: a rule stores through __dict__", ["R-ENTRY"],
+    [(UJ, '''        self.duration = user_time_spent_sum.set_label(f"Duration of {self.name}")''',
+      '''        self.duration = user_time_spent_sum.set_label(f"Duration of {self.name}")
+        self.__dict__["last_duration"] = self.duration''')], ["UsageJourney.update_duration"])
+mut("entry: wrapper keeps assignments for itself", ["R-ENTRY"],
+    [(CM, "            setattr(self._value, name, input_value)  # Use `setattr` instead of `__setattr__`",
+      "            super().__setattr__(name, input_value)")], ["ContextualModelingObjectAttribute.__setattr__"])
+mut("entry: direct-store branch widened to every attribute", ["R-ENTRY"],
+    [(MO, "        elif name in self.calculated_attributes or not self.trigger_modeling_updates:",
+      "        elif True:")], ["ModelingObject.__setattr__"])
+mut("edge: a rule edits the children list itself", ["R-EDGE"],
+    [(ED, '''        super().__setitem__(key, value)''', '''        super().__setitem__(key, value)
+        value.direct_children_with_id = []''')], ["direct_children_with_id"])
+mut("edge: deregistration only for values with children", ["R-EDGE"],
+    [(EB, "        if self.modeling_obj_container is not None:\n            for direct_ancestor_with_id in self.direct_ancestors_with_id:\n                direct_ancestor_with_id.remove_child",
+      "        if self.modeling_obj_container is not None and self.direct_children_with_id:\n            for direct_ancestor_with_id in self.direct_ancestors_with_id:\n                direct_ancestor_with_id.remove_child")],
+    ["deregistration"])
+mut("guard: self_delete detaches before checking", ["R-GUARD"],
+    [(MO, '''        if self.modeling_obj_containers:
+            raise PermissionError(
+                f"You can’t delete {self.name} because "
+                f"{','.join([mod_obj.name for mod_obj in self.modeling_obj_containers])} have it as attribute.")
+
+        for attr in self.mod_obj_attributes:
+            attr.set_modeling_obj_container(None, None)
+''', '''        for attr in self.mod_obj_attributes:
+            attr.set_modeling_obj_container(None, None)
+
+        if self.modeling_obj_containers:
+            raise PermissionError(
+                f"You can’t delete {self.name} because "
+                f"{','.join([mod_obj.name for mod_obj in self.modeling_obj_containers])} have it as attribute.")
+''')], ["self_delete"])
+mut("guard: system links before checking exclusivity", ["R-GUARD"],
+    [(SYS, '''        self.check_no_object_to_link_is_already_linked_to_another_system(usage_patterns)
+        self.usage_patterns = ListLinkedToModelingObj(usage_patterns)''',
+      '''        self.usage_patterns = ListLinkedToModelingObj(usage_patterns)
+        self.check_no_object_to_link_is_already_linked_to_another_system(usage_patterns)''')], ["System.__init__"])
+mut("rev: network caches its usage patterns", ["R-REV"],
+    [(NW, '''    @property
+    def usage_patterns(self):
+        return self.modeling_obj_containers''', '''    @property
+    def usage_patterns(self):
+        if getattr(self, "_ups", None) is None:
+            self.__dict__["_ups"] = self.modeling_obj_containers
+        return self._ups''')], ["Network.usage_patterns"])
+mut("rev: containers no longer filtered on attachment", ["R-REV"],
+    [(MO, '''             for contextual_mod_obj_container in self.contextual_modeling_obj_containers
+             if contextual_mod_obj_container.modeling_obj_container is not None]))''',
+      '''             for contextual_mod_obj_container in self.contextual_modeling_obj_containers]))''')],
+    ["modeling_obj_containers"])
+mut("pureview: to_json rounds the stored value in place", ["R-PUREVIEW"],
+    [(EO, '''        output_dict = {
+            "label": self.label,
+            "values": list(''', '''        self.round(rounding_depth)
+        output_dict = {
+            "label": self.label,
+            "values": list(''')], ["to_json"])
+mut("pureview: a system view converts and stores", ["R-PUREVIEW"],
+    [(SYS, '''        tmp_sum = expl_obj.sum()''', '''        expl_obj.value["value"] = expl_obj.value["value"] * 1
+        tmp_sum = expl_obj.sum()''')], ["frame store", "expl_obj.value"])
+
+# ------------------------------------------------------------------------------------------------ lists
+mut("listapi: insert no longer overridden", ["R-LISTAPI"],
+    [(LL, "    def insert(self, index: int, value: ModelingObject):", "    def insert_checked(self, index: int, value: ModelingObject):"),
+     (LL, "        super().insert(index, value_to_set)", "        list.insert(self, index, value_to_set)")], ["list.insert"])
+mut("listpair: remove detaches its argument (revert of fix F13)", ["R-LISTPAIR"],
+    [(LL, '''        removed_value = super().pop(self.index(value))
+        removed_value.set_modeling_obj_container(None, None)''', '''        super().remove(value)
+        value.set_modeling_obj_container(None, None)''')], ["remove", "argument"])
+mut("listpair: slice deletion treated as one element (revert of fix F13)", ["R-LISTPAIR"],
+    [(LL, '''        removed_values = self[index] if isinstance(index, slice) else [self[index]]
+        for value in removed_values:
+            value.set_modeling_obj_container(None, None)''', '''        value = self[index]
+        value.set_modeling_obj_container(None, None)''')], ["__delitem__", "slice"])
+mut("listpair: append stores the raw object", ["R-LISTPAIR"],
+    [(LL, '''        value_to_set = ContextualModelingObjectAttribute(value)
+        super().append(value_to_set)''', '''        value_to_set = ContextualModelingObjectAttribute(value)
+        super().append(value)''')], ["append", "attach"])
+mut("listpair: pop forgets to detach", ["R-LISTPAIR"],
+    [(LL, '''        value = super().pop(index)
+        value.set_modeling_obj_container(None, None)
+
+        return value''', '''        value = super().pop(index)
+
+        return value''')], ["pop", "detach"])
+mut("listsib: insert replayed as append on the real list", ["R-LISTSIB"],
+    [(LL, "        super().insert(index, value_to_set)", "        super().append(value_to_set)")], ["insert"])
+mut("listsib: pop replayed at another index", ["R-LISTSIB"],
+    [(LL, "            _ = copied_list.pop(index)", "            _ = copied_list.pop()")], ["pop"])
+twin("lists: remove written as pop(index(x))", ["R-LISTSIB", "R-LISTPAIR"], [(LL, "removed_value", "taken_out"), ]) if False else None
+
 VARIANTS = [v for v in V if v is not None]
